@@ -49,7 +49,15 @@ func (a *Act) havocCall(in ssa.Value, instr ssa.Instruction, st *State, reach st
 		ns := g.freshState(a.nm("aftercall"))
 		g.assumeIf(reach, fmt.Sprintf("(>= %s %s)", ns.Next, st.Next))
 		escOld := g.escNow(st)
+		locksOld := ""
+		if g.trackLocks {
+			locksOld = g.locksNow(st)
+		}
 		*st = *ns
+		if g.trackLocks {
+			// the count of mutexes this function holds is its own bookkeeping: unknown code does not change it
+			st.H["G"] = g.def("HG", heapSort["G"], sto(st.H["G"], ghostLockRef, "0", locksOld))
+		}
 		if g.trackEsc {
 			g.assumeIf(reach, fmt.Sprintf("(>= %s %s)", g.escNow(st), escOld))
 		}
